@@ -348,6 +348,10 @@ def run_sasview_beta2d(case, rec):
     m.setParam("scale", float(rng.uniform(0.5, 2)))
     m.setParam("background", float(rng.uniform(0, 0.1)))
     m.setParam("radius_effective_mode", 1)
+    # a size distribution, so that <F>^2 differs from <F^2> and the beta correction shows
+    m.setParam("radius.width", float(rng.uniform(0.15, 0.3)))
+    m.setParam("radius.npts", 9)
+    m.setParam("radius.nsigmas", 2.0)
     m.cutoff = 0.0
     qx = np.exp(rng.uniform(math.log(0.005), math.log(0.2), 5))*np.cos(0.6)
     qy = qx*math.tan(0.6)
@@ -363,6 +367,8 @@ def run_sasview_beta2d(case, rec):
             continue
         ok = core.close(two, one, 1e-9, 1e-11*float(np.max(np.abs(one))))
         out[beta] = one
+        if beta and 0 in out and core.close(out[0], one, 1e-4, 0.0):
+            rec.inconclusive("the beta correction does not show for %s@%s at these parameters" % (P, S))
         rec.check("beta_2d_refused_or_exact" if beta else "equals_documented_combination", ok,
                   None if ok else {"P": P, "S": S, "entry": "SasView MultiplicationModel.evalDistribution([qx, qy])",
                                    "structure_factor_mode": beta, "returned": two, "same_object_1d_at_|q|": one},
